@@ -286,6 +286,7 @@ def join(s0: int, s1: int, m0: int, m1: int, m2: int, m3: int, m4: int, m5: int,
     sep = _mk([s0, s1], P["nsep"], "distinct", SegStr.source, base=40, atts=SEP_ATTS)
     sep_before = list(sep.chunks)
     items, views = _items(ms, SegStr.source)
+    views_before = [list(v.chunks) for v in views]
     r = sep.join(items)
     ln_r = len(r)
     obs = H.observe(r)
@@ -307,6 +308,9 @@ def join(s0: int, s1: int, m0: int, m1: int, m2: int, m3: int, m4: int, m5: int,
         ok = z3.And(res[3] == off, zint(ln_r) == off, H.views_term(obs, res, Pz, off), H.render_term(r, out_r, Pz), z3.Implies(z3.And(Pz >= 0, Pz < off), body))
         if len(sep.chunks) != len(sep_before) or any(x is not y for x, y in zip(sep.chunks, sep_before)):
             return verdict(False)
+        for v, b in zip(views, views_before):       # the joined items are not touched either
+            if len(v.chunks) != len(b) or any(x is not y for x, y in zip(v.chunks, b)):
+                return verdict(False)
         nontrivial = z3.And(Pz >= 1, Pz < off, off >= len(seq))
     return verdict(sbool(ok), sbool(nontrivial))
 
@@ -383,7 +387,10 @@ def concrete(fn, params, args):
                 if i:
                     want += bs
                 want += cells(v)
+            vb = [cells(v) for v in views]
             r = sep.join(items)
+            if [cells(v) for v in views] != vb:
+                return {"ok": False, "observed": "items after the join: %r" % (items,), "expected": "items unchanged", "call": "%r.join(...)" % (sep,)}
             got = cells(r)
             return {"ok": got == want and len(r) == len(want) and cells(sep) == bs and r.s == "".join(c for c, _ in want) and render_matches(r),
                     "observed": fmt_cells(got) + " .s=%r str=%r" % (r.s, str(r)), "expected": fmt_cells(want), "call": "%r.join(%r)" % (sep, items)}
